@@ -7,8 +7,8 @@ import numpy as np
 from vlib import core, dom, rescorr
 
 ID = "C17"
-PROPS = ["C17_shift.v"]
-GEN = []
+PROPS = ["C17_shift.v", "C01_matrix.v", "C04_step_system.v"]
+GEN = ["reservoir"]
 
 
 def impl_checks(ctx, cases):
